@@ -767,6 +767,22 @@ func c07E9(l *core.Ledger, r *rt) {
 			ok = true
 		}
 	})
+	// a local error variable: the replacement arrives at the merge as a phi edge from the EOF branch
+	sx.AllInstrs(fn, func(_ sx.Node, in ssa.Instruction) {
+		ph, isPhi := in.(*ssa.Phi)
+		if !isPhi || !isErrorType(ph.Type()) {
+			return
+		}
+		for i, e := range ph.Edges {
+			pred := ph.Block().Preds[i]
+			if !edgesDominate(fn, eofEdges, sx.Node{B: pred, I: len(pred.Instrs) - 1}) {
+				continue
+			}
+			if sx.All(sx.Origins(e), func(o sx.Origin) bool { code, known := errCodeOfOrigin(o); return known && code == 14 }) {
+				ok = true
+			}
+		}
+	})
 	// without a named result: a return on the EOF edge
 	sx.AllInstrs(fn, func(nd sx.Node, in ssa.Instruction) {
 		ret, isRet := in.(*ssa.Return)
